@@ -790,6 +790,11 @@ class Manager:
         if self.root._executing_thread is None:
             for _ in range(3):
                 self.tick()
+        elif code is not None:
+            # run() is in progress: let it drain the queue (including the
+            # stopped event) and leave with the exit code afterwards
+            self.root._exit_code = code
+            return
 
         if code is not None:
             raise SystemExit(code)
@@ -968,3 +973,7 @@ class Manager:
         self.root._executing_thread = None
         self.__thread = None
         self.__process = None
+
+        code = self.root.__dict__.pop('_exit_code', None)
+        if code is not None:
+            raise SystemExit(code)
